@@ -17,7 +17,7 @@
    EOF id never arrive"; C20_beyond_eof_refuted shows it is needed, and
    C20_recv_done_general needs nothing else (arbitrary data). *)
 From Coq Require Import NArith ZArith List Bool Arith.
-From HV Require Import Base.Bytes Asset.Xfer Asset.XferProofs Asset.Schema Asset.SchemaProofs Asset.Digits Asset.Record Asset.RecordProofs Asset.Llsd Asset.LlsdProofs.
+From HV Require Import Base.Bytes Asset.Xfer Asset.XferProofs Asset.Schema Asset.SchemaProofs Asset.Digits Asset.Record Asset.RecordProofs Asset.Llsd Asset.LlsdProofs Asset.Anim Asset.AnimProofs Asset.MeshLayout Asset.MeshLayoutProofs.
 Import ListNotations.
 Local Open Scope nat_scope.
 
@@ -357,3 +357,222 @@ Example C20_ex_llsd :
                      ([116]%N, LP (LI 1)); ([112]%N, LM [([109]%N, LI 9)])] /\
   from_llsd Ais S (to_llsd Ais S r ++ [([122]%N, LP (LI 5))]) = Some r.
 Proof. vm_compute. repeat split; reflexivity. Qed.
+
+
+Local Open Scope N_scope.
+
+(* ====================================================================================== *)
+(* (4) animation assets (Asset/Anim.v): llanim.Animation.to_bytes / from_bytes at the raw level - floats are their
+   32-bit patterns, quantised keyframe numbers their wire integers (the float/quantiser layer is C10), strings their
+   UTF-8 bytes.  [wf_anim] is decidable (a bool) and says: integers in the range of their wire type, raw floats below
+   2^32, names valid UTF-8 without NUL, fixed strings valid UTF-8 of at most 16 bytes not ending in NUL, at most
+   2^32-1 joints / 2^31-1 keyframes and constraints, keyframes only under a known version (0.1 or 1.0) with numbers
+   of that version's width.  Tied to the real code by the "animation" correspondence suite. *)
+
+(* serialise-then-parse gives the same animation, for both versions, any number of joints/keys/constraints,
+   consuming exactly the bytes written (whatever follows them in the buffer is left) *)
+Theorem C20_anim_roundtrip : forall a, wf_anim a = true ->
+  exists bs, write_anim a = Some bs /\ parse_anim bs = Some (a, []) /\
+             forall rest, parse_anim (bs ++ rest) = Some (a, rest).
+Proof. exact anim_rt. Qed.
+Print Assumptions C20_anim_roundtrip.
+
+(* the byte-count test in the model of `for _ in range(count)` only anticipates the ValueError of the first short
+   read: the literal loop fails as well, because every entry reader consumes at least one byte *)
+Theorem C20_anim_count_guard :
+  (forall ow, ow_pos ow -> consumes (rd_key ow)) /\ (forall ow, ow_pos ow -> consumes (rd_joint ow)) /\ consumes rd_constr /\
+  (forall (A : Type) (p : Anim.bytes -> option (A * Anim.bytes)) count bs, consumes p ->
+     (Z.of_nat (length bs) < count)%Z -> rd_rep p (Z.to_nat count) bs = None).
+Proof.
+  destruct anim_guards_faithful as (H1 & H2 & H3). repeat split; try assumption.
+  intros A p count bs. apply rd_counted_guard.
+Qed.
+Print Assumptions C20_anim_count_guard.
+
+Definition ex_key16 : Anim.key := mkKey 0 32767 65535 1.
+Definition ex_key32 : Anim.key := mkKey 1056964608 0 2147483648 1065353216.
+Definition ex_constr : constr :=
+  mkConstr 3 1 [109; 80; 101; 108; 118; 105; 115] (0, 1065353216, 3212836864)
+           [195; 169; 120; 120; 120; 120; 120; 120; 120; 120; 120; 120; 120; 120; 120; 120] (0, 0, 0) (1, 2, 3) 0 1 2 3.
+Definition ex_anim10 : anim :=
+  mkAnim 1 0 4 1070141403 [228; 184; 173] 0 1065353216 1 1056964608 1056964608 1
+         [mkJoint [109; 78; 101; 99; 107] (-1) [ex_key16; ex_key16] []; mkJoint [109; 78; 101; 99; 107] 2147483647 [] [ex_key16]]
+         [ex_constr].
+Definition ex_anim01 : anim :=
+  mkAnim 0 1 (-2147483648) 1070141403 [] 0 1065353216 0 0 0 4294967295
+         [mkJoint [] 0 [ex_key32] [ex_key32; ex_key32]] [].
+(* an unknown version is fine as long as no keyframe has to be written *)
+Definition ex_anim25 : anim := mkAnim 2 5 0 0 [] 0 0 0 0 0 0 [mkJoint [97] 0 [] []] [ex_constr].
+
+Example C20_ex_anim :
+  wf_anim ex_anim10 = true /\ wf_anim ex_anim01 = true /\ wf_anim ex_anim25 = true /\
+  option_map (@length N) (write_anim ex_anim10) = Some 208%nat /\
+  (forall bs, write_anim ex_anim10 = Some bs -> parse_anim (bs ++ [1; 2; 3]%N) = Some (ex_anim10, [1; 2; 3]%N)) /\
+  (* parsing is not injective: a negative count reads as the empty list, a missing final NUL at EOF is accepted *)
+  parse_anim [1; 0; 0; 0; 0; 0; 0; 0; 0; 0; 0; 0; 0; 0; 0; 0; 0; 0; 0; 0; 0; 0; 0; 0; 0; 0; 0; 0; 0; 0; 0; 0; 0;
+              0; 0; 0; 0; 0; 0; 0; 0; 255; 255; 255; 255; 9]%N
+    = Some (mkAnim 1 0 0 0 [] 0 0 0 0 0 0 [] [], [9]%N).
+Proof.
+  vm_compute. repeat split; try reflexivity. intros bs H. injection H as <-. reflexivity.
+Qed.
+
+(* every clause of wf_anim is needed: dropping it makes the round trip fail on the value shown *)
+Definition with_emote (e : Anim.bytes) : anim := mkAnim 1 0 0 0 e 0 0 0 0 0 0 [] [].
+Definition with_vol (v : Anim.bytes) : anim :=
+  mkAnim 1 0 0 0 [] 0 0 0 0 0 0 [] [mkConstr 0 0 v (0, 0, 0) [] (0, 0, 0) (0, 0, 0) 0 0 0 0].
+Definition rt_fails (a : anim) : Prop :=
+  match write_anim a with
+  | None => True
+  | Some bs => parse_anim bs <> Some (a, [])
+  end.
+
+Theorem C20_anim_wf_refuted :
+  (* a NUL inside a name ends it early *)
+  rt_fails (with_emote [97; 0; 98]%N) /\
+  (* bytes that are not UTF-8 are written but not read back (no Python str encodes to them) *)
+  rt_fails (with_emote [195]%N) /\ rt_fails (with_emote [237; 160; 128]%N) /\
+  (* fixed-width strings: a trailing NUL is stripped as padding; 17 bytes do not fit *)
+  rt_fails (with_vol [97; 0]%N) /\ rt_fails (with_vol (repeat 97 17%nat)) /\
+  (* integers outside their wire type *)
+  rt_fails (mkAnim 1 0 2147483648 0 [] 0 0 0 0 0 0 [] []) /\ rt_fails (mkAnim 65536 0 0 0 [] 0 0 0 0 0 0 [] []) /\
+  rt_fails (mkAnim 1 0 0 4294967296 [] 0 0 0 0 0 0 [] []) /\
+  (* a keyframe number wider than the version's format; a keyframe under an unknown version *)
+  rt_fails (mkAnim 1 0 0 0 [] 0 0 0 0 0 0 [mkJoint [] 0 [mkKey 65536 0 0 0] []] []) /\
+  rt_fails (mkAnim 2 0 0 0 [] 0 0 0 0 0 0 [mkJoint [] 0 [] [mkKey 0 0 0 0]] []) /\
+  (* a number that is not a byte inside a string is written as it is: the output is not a byte string *)
+  option_map bytes_okb (write_anim (with_emote [256]%N)) = Some false /\
+  (* and each of these values is outside wf_anim *)
+  forallb (fun a => negb (wf_anim a))
+    [with_emote [97; 0; 98]%N; with_emote [195]%N; with_emote [237; 160; 128]%N; with_vol [97; 0]%N; with_vol (repeat 97 17%nat);
+     mkAnim 1 0 2147483648 0 [] 0 0 0 0 0 0 [] []; mkAnim 65536 0 0 0 [] 0 0 0 0 0 0 [] [];
+     mkAnim 1 0 0 4294967296 [] 0 0 0 0 0 0 [] []; mkAnim 1 0 0 0 [] 0 0 0 0 0 0 [mkJoint [] 0 [mkKey 65536 0 0 0] []] [];
+     mkAnim 2 0 0 0 [] 0 0 0 0 0 0 [mkJoint [] 0 [] [mkKey 0 0 0 0]] []; with_emote [256]%N] = true.
+Proof.
+  unfold rt_fails. vm_compute. repeat split; try reflexivity; try exact I; discriminate.
+Qed.
+Print Assumptions C20_anim_wf_refuted.
+
+(* the remaining clause (collection sizes) cannot be shown by a computed witness of 2^31 elements; it is the
+   writer's own check `max_len < len(entries)` *)
+Theorem C20_anim_too_long_refused : forall (A : Type) signed (w : A -> option Anim.bytes) l,
+  len_ok signed l = false -> wr_coll signed w l = None.
+Proof. exact @wr_coll_too_long. Qed.
+Print Assumptions C20_anim_too_long_refused.
+
+(* ====================================================================================== *)
+(* (5) the mesh asset container (Asset/MeshLayout.v): LLMeshSerializer.serialize / deserialize.  Oracles (premises of
+   the theorems, exercised by the "mesh container" correspondence suite through the real functions): the header
+   codec (binary LLSD: [dec_hdr (enc_hdr h ++ rest) = Some (h, rest)], proved for the LLSD model in C12), zip_llsd /
+   unzip_llsd with the per-segment templates ([inflate k (deflate k s) = IOk s]).  Keys of a dict are distinct
+   ([NoDup (hkeys ...)]).  [allow] = allow_invalid_segments. *)
+
+(* the order in which segments are written: a permutation of the header keys, ordered by KNOWN_SEGMENTS rank,
+   keys of equal rank (all unknown names) in header order *)
+Theorem C20_mesh_order : forall rk l,
+  Permutation.Permutation (sort_keys rk l) l /\ sorted_by rk (sort_keys rk l) /\
+  forall r, filter (fun x => N.eqb (rk x) r) (sort_keys rk l) = filter (fun x => N.eqb (rk x) r) l.
+Proof. intros rk l. split; [apply sort_keys_perm | split; [apply sort_keys_sorted | intros r; apply sort_keys_stable]]. Qed.
+Print Assumptions C20_mesh_order.
+
+(* the written table: the body is the concatenation of the blobs in that order; every written blob's header entry
+   carries offset = total size of the blobs before it and size = its length (running sums: no gap, no overlap, the
+   last one ends at the end of the body), keeps its other entries; non-segment entries and the key order are
+   untouched; cutting [front ++ body] at (|front| + offset, size) returns exactly the blob *)
+Theorem C20_mesh_slices : forall (X S : Type) rk (deflate : MeshLayout.key -> S -> MeshLayout.bytes) allow (m : mesh X S) h' body,
+  NoDup (hkeys X (m_header m)) ->
+  write_layout rk deflate allow m = Some (h', body) ->
+  exists bl,
+    blobs_of X S deflate allow m (m_header m) (sort_keys rk (hkeys X (m_header m))) = Some bl /\
+    body = concat (map snd bl) /\
+    hkeys X h' = hkeys X (m_header m) /\
+    (forall k, segk X (m_header m) k = false -> lookup k h' = lookup k (m_header m)) /\
+    (forall pre k b post, bl = pre ++ (k, b) :: post ->
+       (exists v, seg_value m k = Some v /\ b = blob_of deflate k v) /\
+       (exists o s e, lookup k (m_header m) = Some (HSeg o s e) /\
+                      lookup k h' = Some (HSeg (Z.of_nat (total pre)) (Z.of_nat (length b)) e)) /\
+       (forall front, slice (front ++ body) (Z.of_nat (length front) + Z.of_nat (total pre)) (Z.of_nat (length b)) = b)).
+Proof. exact mesh_slices. Qed.
+Print Assumptions C20_mesh_slices.
+
+(* parse (serialize m) with the default flags, any header (unknown keys, extra entries, any order), segments given as
+   trees or bytes or through raw_segments: the rewritten header (equal to the old one up to offset/size) and every
+   written blob inflated, in header order; the parse fails exactly when a blob does not inflate *)
+Theorem C20_mesh_roundtrip_general : forall (X S : Type) rk deflate inflate enc_hdr dec_hdr,
+  (forall (h : mheader X) rest, dec_hdr (enc_hdr h ++ rest) = Some (h, rest)) ->
+  forall (m : mesh X S) incl bs, NoDup (hkeys X (m_header m)) ->
+  write_mesh rk deflate enc_hdr false m = Some bs ->
+  exists h' body bl,
+    write_layout rk deflate false m = Some (h', body) /\ bs = enc_hdr h' ++ body /\
+    blobs_of X S deflate false m (m_header m) (sort_keys rk (hkeys X (m_header m))) = Some bl /\
+    strip_layout h' = strip_layout (m_header m) /\
+    parse_mesh inflate dec_hdr false incl bs =
+    match inflate_all S inflate (seg_entries X (m_header m)) bl with
+    | None => None
+    | Some (sg, rw) => Some (mkParsed h' sg (if incl then rw else []))
+    end.
+Proof. exact mesh_rt. Qed.
+Print Assumptions C20_mesh_roundtrip_general.
+
+(* an asset whose segments are decoded trees (no raw_segments) comes back with the same header up to the layout fields
+   and the same segment under every segment-header key *)
+Theorem C20_mesh_roundtrip : forall (X S : Type) rk deflate inflate enc_hdr dec_hdr,
+  (forall (h : mheader X) rest, dec_hdr (enc_hdr h ++ rest) = Some (h, rest)) ->
+  (forall k (s : S), inflate k (deflate k s) = IOk s) ->
+  forall (m : mesh X S) incl bs, NoDup (hkeys X (m_header m)) -> decoded X S m ->
+  write_mesh rk deflate enc_hdr false m = Some bs ->
+  exists p,
+    parse_mesh inflate dec_hdr false incl bs = Some p /\
+    strip_layout (p_header p) = strip_layout (m_header m) /\
+    hkeys X (p_header p) = hkeys X (m_header m) /\
+    map fst (p_segments p) = seg_entries X (m_header m) /\
+    (forall k s, segk X (m_header m) k = true -> lookup k (m_segments m) = Some (SParsed s) -> lookup k (p_segments p) = Some s) /\
+    (if incl then map fst (p_raw p) = seg_entries X (m_header m) else p_raw p = []).
+Proof. exact mesh_rt_decoded. Qed.
+Print Assumptions C20_mesh_roundtrip.
+
+(* the hypotheses are satisfiable: a concrete header codec and blob codec satisfy both laws, and a mesh with known
+   segments out of order, an unknown segment, stale offsets, an extra entry inside a segment header and non-segment
+   entries goes through write and parse *)
+Definition ex_mesh : mesh N MeshLayout.bytes :=
+  mkMesh [ ([118]%N, HOther 1%N);
+           ([115; 107; 105; 110]%N, HSeg 77 5 9%N);                         (* skin, stale offset/size, extra 9 *)
+           ([122]%N, HSeg 0 0 0%N);                                         (* unknown segment "z" *)
+           ([104; 105; 103; 104; 95; 108; 111; 100]%N, HSeg (-3) 0 0%N);    (* high_lod *)
+           ([99]%N, HOther 2%N) ]
+         [ ([122]%N, SParsed [1; 2; 3]%N); ([115; 107; 105; 110]%N, SParsed []%N);
+           ([104; 105; 103; 104; 95; 108; 111; 100]%N, SParsed [7; 7]%N) ]
+         [].
+
+Example C20_ex_mesh :
+  (forall h rest, toy_dec (toy_enc h ++ rest) = Some (h, rest)) /\
+  (forall k s, toy_inflate k (toy_deflate k s) = IOk s) /\
+  NoDup (hkeys N (m_header ex_mesh)) /\ decoded N MeshLayout.bytes ex_mesh /\
+  write_layout (rank known_segments) toy_deflate false ex_mesh =
+    Some ([ ([118]%N, HOther 1%N); ([115; 107; 105; 110]%N, HSeg 3 1 9%N); ([122]%N, HSeg 4 4 0%N);
+            ([104; 105; 103; 104; 95; 108; 111; 100]%N, HSeg 0 3 0%N); ([99]%N, HOther 2%N) ],
+          [120; 7; 7; 120; 120; 1; 2; 3]%N) /\
+  (exists bs, write_mesh (rank known_segments) toy_deflate toy_enc false ex_mesh = Some bs /\
+     option_map (fun p => (p_segments p, p_raw p)) (parse_mesh toy_inflate toy_dec false true bs) =
+     Some ([ ([115; 107; 105; 110]%N, []%N); ([122]%N, [1; 2; 3]%N); ([104; 105; 103; 104; 95; 108; 111; 100]%N, [7; 7]%N) ],
+           [ ([115; 107; 105; 110]%N, [120]%N); ([122]%N, [120; 1; 2; 3]%N);
+             ([104; 105; 103; 104; 95; 108; 111; 100]%N, [120; 7; 7]%N) ])).
+Proof.
+  split; [exact toy_dec_enc|]. split; [exact toy_inflate_deflate|]. split.
+  { cbn. repeat constructor; cbn; intuition discriminate. }
+  split.
+  { split; [reflexivity|]. cbn. repeat constructor; eexists; reflexivity. }
+  split; [vm_compute; reflexivity|].
+  eexists. split; vm_compute; reflexivity.
+Qed.
+
+(* what the container does NOT give back: a segment whose header entry is not a segment header is silently left out
+   by the writer (no error), so it is missing after the round trip; and with allow_invalid_segments the header of a
+   missing segment keeps its stale offset *)
+Theorem C20_mesh_non_header_segment_refuted :
+  let m := mkMesh [([115]%N, HOther 5%N)] [([115]%N, SParsed [1]%N)] [] in
+  write_layout (rank known_segments) toy_deflate false m = Some ([([115]%N, HOther 5%N)], []) /\
+  write_layout (rank known_segments) toy_deflate true (mkMesh [([115]%N, HSeg 42 7 0%N)] ([] : list (MeshLayout.key * segval MeshLayout.bytes)) [])
+    = Some ([([115]%N, HSeg 42 7 0%N)], []) /\
+  write_layout (rank known_segments) toy_deflate false (mkMesh [([115]%N, HSeg 42 7 0%N)] ([] : list (MeshLayout.key * segval MeshLayout.bytes)) []) = None.
+Proof. vm_compute. repeat split; reflexivity. Qed.
+Print Assumptions C20_mesh_non_header_segment_refuted.
